@@ -1339,12 +1339,34 @@ def history_correspondence(run):
         ops, cops, out = [], [], []
         current = dict(files)
         added = []
+        plan = [None] * rng.randint(5, 12)
+        if rng.random() < 0.6:
+            # bind the identifier, use it, re-bind it to the other file (the
+            # only way: remove it from EXTERNAL_LUTS and register again), use
+            # it, rewrite that file in place, use it again
+            plan += ["reg10", "callid", "unreg", "reg11", "callid", "write11",
+                     "callid"]
         try:
-            for _ in range(rng.randint(5, 12)):
+            for forced in plan:
                 r = rng.random()
+                if forced in ("reg10", "reg11"):
+                    r = 0.0
+                elif forced == "unreg":
+                    r = 0.16
+                elif forced == "write11":
+                    r = 0.25
+                elif forced == "callid":
+                    r = 0.9
+                if 0.15 <= r < 0.19:
+                    ops.append(["unreg", 30])
+                    cops.append("OUnregister 30")
+                    load.EXTERNAL_LUTS.pop(strs[30], None)
+                    continue
                 if r < 0.15:
                     idc = rng.choice([30, 30, 1])
                     p_ = rng.choice([10, 11])
+                    if forced:
+                        idc, p_ = 30, int(forced[3:])
                     ops.append(["reg", p_, idc])
                     cops.append("ORegister %d (Some %d)" % (p_, idc))
                     before = set(load.EXTERNAL_LUTS)
@@ -1356,7 +1378,7 @@ def history_correspondence(run):
                         out.append(ERR_CODES.get(type(exc).__name__, 8))
                     added += list(set(load.EXTERNAL_LUTS) - before)
                 elif r < 0.30:
-                    p_ = rng.choice([10, 11])
+                    p_ = 11 if forced else rng.choice([10, 11])
                     sp = good_spec()
                     ops.append(["write", p_, sp["tag"], sp["cols"],
                                 sp["units"]])
@@ -1370,6 +1392,8 @@ def history_correspondence(run):
                     arr[:] = np.array(rows)          # in place, by the user
                 else:
                     how = rng.choice(["path", "path", "ident", "tuple"])
+                    if forced:
+                        how = "ident"
                     cw = rng.choice([20.0, 30.0, 15.0])
                     fr = rng.choice([0.04, 0.16])
                     v = rng.choice([15.0, 5.0, 7.5])
@@ -2133,6 +2157,36 @@ def chk_rewrite(sc, rng, scratch):
                      "was restored", ident)
         if why:
             return why
+        # re-bind the identifier to ANOTHER file (remove + register again)
+        path2 = os.path.join(scratch, ident + "-b.txt")
+        Le = variant(L1, 2.0)
+        Le.write(path2, ident)
+        load.EXTERNAL_LUTS.pop(ident, None)
+        load.register_lut(path2, ident)
+        why = expect(Le, "identifier removed from EXTERNAL_LUTS and "
+                     "registered again with another file", ident)
+        if why:
+            return why
+        if sc.L.feat == "area_um" and sc.px and np.isfinite(sc.x).all() \
+                and np.isfinite(sc.d).all() and sc.med["kind"] == "num":
+            import dclab
+            ds = dclab.new_dataset({"area_um": sc.x.copy(),
+                                    "deform": sc.d.copy()})
+            ds.config["setup"]["flow rate"] = sc.fr
+            ds.config["setup"]["channel width"] = sc.cw
+            ds.config["imaging"]["pixel size"] = sc.px
+            ds.config["calculation"]["emodulus lut"] = ident
+            ds.config["calculation"]["emodulus viscosity"] = sc.med["v"]
+            with np.errstate(all="ignore"):
+                got = np.array(ds["emodulus"])
+            sce = Scn(dict(sc.case, lut=lut_to_case(Le)))
+            bad, R, dist, cond = compare_with_reference(sce, got)
+            if bad:
+                i = bad[0]
+                return ("ds['emodulus'] with the re-bound identifier: event "
+                        "%d: %r, the interpolation of the table currently "
+                        "registered gives %r" % (i, float(got[i]),
+                                                 float(R[i])))
     finally:
         load.EXTERNAL_LUTS.pop(ident, None)
     # (array, meta) modified by the caller between calls
